@@ -19,6 +19,10 @@ Clauses
                        non-newline characters (a flush may end the physical line; the styling in force carries on)
   c19.flush_verbatim   per flush(): the visible text emitted == the pending partial line (a trailing newline
                        is accepted), nothing when nothing is pending; no exception
+                       (all three clauses also run over lines that hold a C0 control rich strips by design - BS, VT,
+                       FF - in a plain or a styled run, before or after styled text: the oracle's terminal model leaves
+                       such a control out of the visible cells on both sides, so dropping or keeping it is accepted;
+                       every other character must arrive once, in order, with the styling it was written with)
   c19.undecodable_line a line holding a CSI sequence with a non-ASCII digit must not lose lines / raise
   c19.live_redirect    the same through Live / Progress redirection of sys.stdout and sys.stderr
 """
@@ -234,6 +238,19 @@ SGR_LINES = (
     "\x1b[1;32mB\x1b[mp",    # ESC [ m : empty parameter string = 0 = reset (as written by git, grep, ls)
     "\x1b[5;6mk\x1b[25ms",   # 25 = steady: neither slowly nor rapidly blinking
 )
+# lines holding a C0 control that is not a line boundary of a "\n"-delimited stream (backspace "spinner", vertical tab,
+# form feed page break): whether the control itself reaches the file is left open (rich strips BS / VT / FF by design;
+# ``_sgr`` keeps no control in the visible cells), every other character has to arrive with the styling it was written with
+CTRL_LINES = (
+    "spin |\x08/\x08- \x1b[32mdone\x1b[0m in 3s",            # control in a plain run, a styled run later in the line
+    "page 1\x0c\x1b[1mTOTAL\x1b[0m 42 \x1b[31mFAILED\x1b[0m 1",
+    "v\x0bt \x1b[38;2;1;2;3;48;5;100mX\x1b[0m y",
+    "\x1b[1;4mbo\x08\x08ld\x1b[0m plain \x1b[3mi\x1b[0m.",    # control inside a styled run, plain text after it
+    "a\x0cb \x1b]8;;http://l/k\x1b\\L\x1b]8;;\x1b\\ z",          # control before a linked run
+    "\x1b[7mr\x1b[0m tail\x08\x0c",                            # control only after the last styled run
+    "\x08",                                                   # nothing but a control
+    "\x0b\x1b[9ms",                                            # control first; the style stays open for the next line
+)
 BRACKET_LINES = ("[bold]x", "[/x]y", "a[1]b", "[red]r[/red]", "][", ":smile:")
 UNDECODABLE = "p\x1b[²mq"
 
@@ -241,7 +258,7 @@ UNDECODABLE = "p\x1b[²mq"
 def proxy_streams(seed, tier):
     """Streams of <= 4 lines. A stream is (list of lines, ends_with_newline)."""
     rng = random.Random(seed * 65537 + 11)
-    pool = PLAIN_LINES + SGR_LINES + BRACKET_LINES
+    pool = PLAIN_LINES + SGR_LINES + BRACKET_LINES + CTRL_LINES
     streams = []
     for line in pool:
         streams.append(([line], True))
@@ -261,6 +278,12 @@ def proxy_streams(seed, tier):
         streams.append((lines, rng.random() < 0.6))
     streams.append((["", "", "", "x"], True))  # many newlines
     streams.append((["a", "", "", ""], True))
+    # directed: a line with a control (alone, at its end, in its middle) followed in the same stream - for the uncut
+    # history in the same write() - by a line with styled text
+    for first in ("\x08", "end\x0c", "x\x0by", CTRL_LINES[0]):
+        for second in ("\x1b[31mred\x1b[0m z", "p \x1b[1mb\x1b[0m", CTRL_LINES[1]):
+            streams.append(([first, second], True))
+    streams.append((["k\x08", "", "\x1b[4mu\x1b[0m w", "t\x0c \x1b[2md"], False))
     return streams
 
 
@@ -574,7 +597,7 @@ def live_evaluate(ops, kind):
 
 def live_histories(seed, count):
     rng = random.Random(seed * 4099 + 1)
-    pool = PLAIN_LINES + SGR_LINES + ("a[1]b", "][")
+    pool = PLAIN_LINES + SGR_LINES + ("a[1]b", "][") + CTRL_LINES
     hist = []
     for idx in range(count):
         text_o = "\n".join(rng.choice(pool) for _ in range(rng.randrange(1, 4))) + "\n"
@@ -870,12 +893,12 @@ def run(tier: str = "quick", seed: int = 0) -> dict:
                  "%d distinct; by kind %s" % (distinct, json.dumps(kinds, sort_keys=True))),
         "bound": ("tier %s seed %d: round trip %d texts over the C03 style pool (%d blocks of 27, truecolor, "
                   "texts incl. wide, markup-looking, newlines); proxy: %d streams of <= 4 lines from %d plain / %d "
-                  "SGR+OSC8 / %d bracket+emoji-code lines (no tab, no CR: Text expands / the decoder applies them "
+                  "SGR+OSC8 / %d bracket+emoji-code / %d BS,VT,FF-holding lines (no tab, no CR: Text expands / the decoder applies them "
                   "by design), cut into <= 5 writes: all 1-cut sets, %s, %d random cut sets per larger size up to "
                   "4; 4 decorations (writes only / flush after each / one flush + empty write / empty writes + "
                   "final flush)%s; Live and Progress: %d histories over stdout+stderr" % (
                       tier, seed, plan["rt"], plan["blocks"], n_streams, len(PLAIN_LINES), len(SGR_LINES),
-                      len(BRACKET_LINES), levels, plan["sample"],
+                      len(BRACKET_LINES), len(CTRL_LINES), levels, plan["sample"],
                       " rotated" if plan["variants"] == 1 else " all", plan["live"])),
         "samples": samples,
         "clauses": clauses,
